@@ -22,7 +22,7 @@ int Debug::printf(const char* format, ...)
   return r;
 }
 
-enum { NE = 3, NG = 2, NL = 3, NS = 2, MAXK = 8, MAXACT = 8, MAXLOG = 1 << 16 };
+enum { NE = 3, NG = 3, NL = 3, NS = 2, MAXK = 8, MAXACT = 8, MAXLOG = 1 << 16 };
 
 struct Act
 {
@@ -40,13 +40,16 @@ struct Em : public Callback::Emitter
 {
   int id;
   Em(int id) : id(id) {}
-  // signal 0 uses the arity-0 overloads of emit/connect/disconnect, signal 1 the arity-1 overloads
+  // signal 0 uses the arity-0 overloads of emit/connect/disconnect, signal 1 the arity-1 overloads,
+  // signal 2 the arity-8 overloads
   void sig0() {}
   void sig1(int) {}
+  void sig2(int, int, int, int, int, int, int, int) {}
   void fire(int g)
   {
     if(g == 0) emit(&Em::sig0);
-    else emit<Em, int>(&Em::sig1, 7);
+    else if(g == 1) emit<Em, int>(&Em::sig1, 7);
+    else emit<Em, int, int, int, int, int, int, int, int>(&Em::sig2, 1, 2, 3, 4, 5, 6, 7, 8);
   }
 };
 
@@ -62,26 +65,38 @@ struct Li : public Callback::Listener
   // the same two slots with the signature of signal 1
   void slot0a(int a) { runSlot(a == 7 ? id : -1, 0); }
   void slot1a(int a) { runSlot(a == 7 ? id : -1, 1); }
+  // ... and of signal 2 (all eight arguments must arrive in order)
+  static bool args8(int a, int b, int c, int d, int e, int f, int g, int h)
+  {
+    return a == 1 && b == 2 && c == 3 && d == 4 && e == 5 && f == 6 && g == 7 && h == 8;
+  }
+  void slot0h(int a, int b, int c, int d, int e, int f, int g, int h) { runSlot(args8(a, b, c, d, e, f, g, h) ? id : -1, 0); }
+  void slot1h(int a, int b, int c, int d, int e, int f, int g, int h) { runSlot(args8(a, b, c, d, e, f, g, h) ? id : -1, 1); }
 };
 
 static void doConnect(Em* e, int g, Li* l, int s)
 {
   if(g == 0) Callback::connect(e, &Em::sig0, l, s == 0 ? &Li::slot0 : &Li::slot1);
-  else Callback::connect(e, &Em::sig1, l, s == 0 ? &Li::slot0a : &Li::slot1a);
+  else if(g == 1) Callback::connect(e, &Em::sig1, l, s == 0 ? &Li::slot0a : &Li::slot1a);
+  else Callback::connect(e, &Em::sig2, l, s == 0 ? &Li::slot0h : &Li::slot1h);
 }
 
 static void doDisconnect(Em* e, int g, Li* l, int s)
 {
   if(g == 0) Callback::disconnect(e, &Em::sig0, l, s == 0 ? &Li::slot0 : &Li::slot1);
-  else Callback::disconnect(e, &Em::sig1, l, s == 0 ? &Li::slot0a : &Li::slot1a);
+  else if(g == 1) Callback::disconnect(e, &Em::sig1, l, s == 0 ? &Li::slot0a : &Li::slot1a);
+  else Callback::disconnect(e, &Em::sig2, l, s == 0 ? &Li::slot0h : &Li::slot1h);
 }
 
-static Callback::MemberFuncPtr sigPtr(int g) { return g == 0 ? Callback::MemberFuncPtr(&Em::sig0) : Callback::MemberFuncPtr(&Em::sig1); }
+static Callback::MemberFuncPtr sigPtr(int g)
+{
+  return g == 0 ? Callback::MemberFuncPtr(&Em::sig0) : g == 1 ? Callback::MemberFuncPtr(&Em::sig1) : Callback::MemberFuncPtr(&Em::sig2);
+}
 // index of a slot pointer (either signature)
 static int slotIndexOf(const Callback::MemberFuncPtr& p)
 {
-  if(p == Callback::MemberFuncPtr(&Li::slot0) || p == Callback::MemberFuncPtr(&Li::slot0a)) return 0;
-  if(p == Callback::MemberFuncPtr(&Li::slot1) || p == Callback::MemberFuncPtr(&Li::slot1a)) return 1;
+  if(p == Callback::MemberFuncPtr(&Li::slot0) || p == Callback::MemberFuncPtr(&Li::slot0a) || p == Callback::MemberFuncPtr(&Li::slot0h)) return 0;
+  if(p == Callback::MemberFuncPtr(&Li::slot1) || p == Callback::MemberFuncPtr(&Li::slot1a) || p == Callback::MemberFuncPtr(&Li::slot1h)) return 1;
   return -1;
 }
 
